@@ -231,6 +231,33 @@ def _pairs(F, r):
                 a1 = t["args"][1]
                 dflt = str(a1.get("uneval") or a1.get("i") or a1.get("f") or a1.get("text")) if a1.get("k") == "const" else "?"
                 unw.append((c, fieldname, dflt, bi, t["dest"]["l"], t["span"]))
+        # `component.unwrap_or(MAX_ITER, TOL)` (the method of SolverOptions): fields .0 / .1 of the result are max_iter / tol
+        def dtext(a1):
+            return str(a1.get("uneval") or a1.get("i") or a1.get("f") or a1.get("text")) if a1.get("k") == "const" else "?"
+        for bi, t in b.calls():
+            if str(callee(t)[2]) != "unwrap_or" or len(t["args"]) != 3 or t["args"][0].get("k") not in ("copy", "move"):
+                continue
+            if not (b.opty(t["args"][0]) or {}).get("s", "").endswith("SolverOptions"):
+                continue
+            pl = t["args"][0]["place"]
+            proj = [q for q in pl["p"] if q != "*"]
+            if pl["l"] in pp and len(proj) == 1 and isinstance(proj[0], dict) and "f" in proj[0]:
+                c = (pl["l"], proj[0]["f"])
+            elif not proj:
+                c = _component(b, defs, pl["l"], pp)
+            else:
+                c = None
+            if c is None or t["dest"]["p"]:
+                continue
+            res = t["dest"]["l"]
+            for bj, sj, st in b.stmts():
+                rv = st["rv"]
+                if rv["k"] != "use" or rv["op"].get("k") not in ("copy", "move") or rv["op"]["place"]["l"] != res or st["place"]["p"]:
+                    continue
+                pr = [q for q in rv["op"]["place"]["p"] if q != "*"]
+                if len(pr) == 1 and isinstance(pr[0], dict) and pr[0].get("f") in (0, 1):
+                    k = pr[0]["f"]
+                    unw.append((c, ("max_iter", "tol")[k], dtext(t["args"][1 + k]), bj, st["place"]["l"], st.get("span") or t["span"]))
         if not unw:
             continue
         n_fn += 1
